@@ -72,7 +72,7 @@ def compare_to_ref(dbx, d, payload: int, msg, expected=None):
         diffs.append(("<msg>", "ttl", repr(d.ttl), repr(msg.ttl), {}))
     exp = expected if expected is not None else dbx.unpack(d, payload)
     judged = [e for e in exp if e["kind"] not in ("unsupported", "skip")]
-    if len(msg.fields) < len(judged):
+    if len(msg.fields) < len(judged) or (len(judged) == len(exp) and len(msg.fields) != len(exp)):
         diffs.append(("<msg>", "field_count", len(judged), len(msg.fields), {}))
     for i, e in enumerate(judged):
         if i >= len(msg.fields):
